@@ -23,7 +23,7 @@ var tableFuncs = map[string]LGFunction{
 func tableSort(L *LState) int {
 	tbl := L.CheckTable(1)
 	sorter := lValueArraySorter{L, nil, tbl.array[:tbl.Len()]}
-	if L.GetTop() != 1 {
+	if L.GetTop() >= 2 && L.Get(2) != LNil { // an explicit nil comparator is the default order
 		sorter.Fn = L.CheckFunction(2)
 	}
 	sort.Sort(sorter)
